@@ -20,6 +20,7 @@ import (
 	envoy "github.com/envoyproxy/go-control-plane/envoy/service/auth/v3"
 
 	configv1 "github.com/istio-ecosystem/authservice/config/gen/go/v1"
+	"github.com/istio-ecosystem/authservice/internal/oidc"
 	"github.com/istio-ecosystem/authservice/internal/server"
 	"github.com/istio-ecosystem/authservice/zzverif/ev"
 	"github.com/istio-ecosystem/authservice/zzverif/par"
@@ -335,6 +336,53 @@ func c06Run(run *ev.Run) {
 			}
 		}
 		run.Class(fmt.Sprintf("derivations|login=%d", i))
+	}
+	// one generator instance serving many logins (what a handler cache or a package-level generator would do): the
+	// identifiers of 4*n consecutive logins drawn from ONE NewRandomGenerator() must not repeat or share structure
+	{
+		g := oidc.NewRandomGenerator()
+		nl := 4 * n
+		if nl < 64 {
+			nl = 64
+		}
+		seenG := map[string]int{}
+		var prev [3]string
+		for k := 0; k < nl; k++ {
+			vals := [3]string{g.GenerateSessionID(), g.GenerateNonce(), g.GenerateState()}
+			_ = g.GenerateCodeVerifier()
+			for vi, v := range vals {
+				kind := []string{"session-id", "nonce", "state"}[vi]
+				atomic.AddInt64(&cands, 1)
+				if j, dup := seenG[v]; dup {
+					run.Violation("C06 predictable target="+kind+" attack=replayed-by-one-generator", fmt.Sprintf("one generator instance: %s of login %d equals an identifier issued at login %d", kind, k, j), map[string]any{"login": k, "earlier": j})
+				}
+				seenG[v] = k
+				// any 16-character window shared with an earlier identifier of the same generator
+				if k > 0 {
+					same := 0
+					for x := 0; x < len(v) && x < len(prev[vi]); x++ {
+						if v[x] == prev[vi][x] {
+							same++
+						}
+					}
+					if len(v) > 0 && same*4 >= len(v) {
+						run.Violation("C06 predictable target="+kind+" attack=shared-structure-with-previous", fmt.Sprintf("one generator instance: %d of %d positions of login %d's %s equal the previous one", same, len(v), k, kind), nil)
+					}
+				}
+				prev[vi] = v
+			}
+		}
+		win := map[string]int{}
+		for v, k := range seenG {
+			for x := 0; x+16 <= len(v); x += 4 {
+				w := v[x : x+16]
+				if j, ok := win[w]; ok && j != k {
+					run.Violation("C06 predictable target=identifier attack=window-replayed-by-one-generator", fmt.Sprintf("a 16-character window of an identifier of login %d re-appears in login %d", k, j), nil)
+				}
+				win[w] = k
+			}
+		}
+		run.Class("one-generator-many-logins")
 	}
 	// attack 2 (thorough): the whole math/rand seed space against the first login
 	if run.Tier == "thorough" && run.Violations() == 0 {
